@@ -73,3 +73,27 @@ pub proof fn lemma_flatten_filter<T>(items: Seq<T>, opts: Seq<Option<T>>, p: spe
         assert(items.last() == items[items.len() - 1]);
     }
 }
+/// membership in a filtered sequence
+pub proof fn lemma_filter_mem<T>(s: Seq<T>, p: spec_fn(T) -> bool)
+    ensures forall|x: T| #[trigger] s.filter(p).contains(x) <==> (s.contains(x) && p(x))
+    decreases s.len()
+{
+    reveal_with_fuel(Seq::filter, 2);
+    if s.len() > 0 {
+        let sub = s.drop_last(); let l = s[s.len() - 1];
+        lemma_filter_mem(sub, p);
+        assert forall|x: T| #[trigger] s.filter(p).contains(x) <==> (s.contains(x) && p(x)) by {
+            let f = s.filter(p); let fs = sub.filter(p);
+            if f.contains(x) {
+                let i = choose|i: int| 0 <= i < f.len() && f[i] == x;
+                if p(l) { if i < fs.len() { assert(fs[i] == x); assert(fs.contains(x)); let j = choose|j: int| 0 <= j < sub.len() && sub[j] == x; assert(s[j] == x); } else { assert(x == l); } }
+                else { assert(fs.contains(x)); let j = choose|j: int| 0 <= j < sub.len() && sub[j] == x; assert(s[j] == x); }
+            }
+            if s.contains(x) && p(x) {
+                let j = choose|j: int| 0 <= j < s.len() && s[j] == x;
+                if j < s.len() - 1 { assert(sub[j] == x); assert(sub.contains(x)); assert(fs.contains(x)); let i = choose|i: int| 0 <= i < fs.len() && fs[i] == x; assert(f[i] == x); }
+                else { assert(p(l)); assert(f[f.len() - 1] == x); }
+            }
+        }
+    }
+}
